@@ -88,6 +88,7 @@ type FCtx struct {
 	curFI    *FuncInfo
 	curCon   *Contract
 	rangeCtr map[ast.Node]types.Object
+	lastDryFields map[int]map[int]bool
 }
 
 func (c *FCtx) oblige(st *State, kind, name string, goal *Term, pos string) {
@@ -189,6 +190,17 @@ func (c *FCtx) writePlace(st *State, p Place, v Val) {
 	}
 	st.cells[p.Cell] = c.update(cv, p.Path, v)
 	st.written[p.Cell] = true
+	if st.wfields == nil {
+		st.wfields = map[int]map[int]bool{}
+	}
+	if st.wfields[p.Cell] == nil {
+		st.wfields[p.Cell] = map[int]bool{}
+	}
+	if len(p.Path) > 0 && !p.Path[0].IsIdx {
+		st.wfields[p.Cell][p.Path[0].Field] = true
+	} else {
+		st.wfields[p.Cell][-1] = true
+	}
 }
 
 func (c *FCtx) varCell(st *State, obj types.Object) int {
